@@ -1240,6 +1240,101 @@ func vContent(t *testing.T, emit func(string)) {
 }
 
 // ---------------------------------------------------------------------------------------------
+// muxu lines: a child of the MuxAgent unregisters while the delivery of a bundle to the children is in
+// progress (the mux is blocked handing the bundle to an earlier child whose reader is slow).
+
+type vPlainAgent struct {
+	eid  bpv7.EndpointID
+	recv chan Message
+	send chan Message
+}
+
+func (a *vPlainAgent) Endpoints() []bpv7.EndpointID { return []bpv7.EndpointID{a.eid} }
+func (a *vPlainAgent) MessageReceiver() chan Message  { return a.recv }
+func (a *vPlainAgent) MessageSender() chan Message    { return a.send }
+
+// vMuxUnregister: n children for one endpoint, child 0 reads late, child `leave` shuts down while the mux is
+// blocked at child 0. Reported: how often each child was handed the bundle.
+func vMuxUnregister(n, leave int) string {
+	mux := NewMuxAgent()
+	go func() {
+		for range mux.MessageSender() {
+		}
+	}()
+	eid := bpv7.MustNewEndpointID("dtn://n1/a")
+	var kids []*vPlainAgent
+	counts := make([]int, n)
+	var mu sync.Mutex
+	var wg sync.WaitGroup
+	reader := func(i int) {
+		defer wg.Done()
+		for msg := range kids[i].recv {
+			if _, ok := msg.(BundleMessage); ok {
+				mu.Lock()
+				counts[i]++
+				mu.Unlock()
+			}
+		}
+	}
+	for i := 0; i < n; i++ {
+		k := &vPlainAgent{eid: eid, recv: make(chan Message), send: make(chan Message)}
+		kids = append(kids, k)
+		mux.Register(k)
+	}
+	for i := 1; i < n; i++ {
+		wg.Add(1)
+		go reader(i)
+	}
+	b, err := bpv7.Builder().CRC(bpv7.CRC32).Source("dtn://src/").Destination(eid).CreationTimestampNow().
+		Lifetime("1h").PayloadBlock([]byte("muxu")).Build()
+	if err != nil {
+		return "# muxu cannot build bundle"
+	}
+	delivered := make(chan struct{})
+	go func() {
+		mux.MessageReceiver() <- BundleMessage{Bundle: b}
+		close(delivered)
+	}()
+	<-delivered // the mux has taken the message and is (about to be) blocked at child 0
+	time.Sleep(30 * time.Millisecond)
+	kids[leave].send <- ShutdownMessage{} // handleChild -> unregister
+	time.Sleep(60 * time.Millisecond)
+	wg.Add(1)
+	go reader(0)
+	// a second message without recipients flushes the fan-out of the first one
+	done := make(chan struct{})
+	go func() {
+		mux.MessageReceiver() <- ShutdownMessage{}
+		close(done)
+	}()
+	select {
+	case <-done:
+	case <-time.After(5 * time.Second):
+		return fmt.Sprintf("muxu %d %d hang", n, leave)
+	}
+	// the mux shuts its children down (they close their senders in reaction: emulate, then the mux closes the receivers)
+	time.Sleep(50 * time.Millisecond)
+	for i, k := range kids {
+		if i != leave {
+			close(k.send)
+		}
+	}
+	waited := make(chan struct{})
+	go func() { wg.Wait(); close(waited) }()
+	select {
+	case <-waited:
+	case <-time.After(5 * time.Second):
+	}
+	mu.Lock()
+	defer mu.Unlock()
+	var cs []string
+	for _, c := range counts {
+		cs = append(cs, strconv.Itoa(c))
+	}
+	return fmt.Sprintf("muxu %d %d %s", n, leave, strings.Join(cs, ","))
+}
+
+// ---------------------------------------------------------------------------------------------
 
 func vStripObs(line string) (kind string, ops []string) {
 	f := strings.Fields(line)
@@ -1336,6 +1431,21 @@ func TestVerifC07(t *testing.T) {
 	}
 
 	lap("race")
+
+	// 4b. a child unregisters while a delivery is in progress
+	for n := 3; n <= 5; n++ {
+		for leave := 1; leave < n; leave++ {
+			func() {
+				defer func() {
+					if x := recover(); x != nil {
+						emit(fmt.Sprintf("muxu %d %d panic", n, leave))
+					}
+				}()
+				emit(vMuxUnregister(n, leave))
+			}()
+		}
+	}
+	lap("mux-unregister")
 
 	// 5. content
 	vContent(t, emit)
